@@ -17,7 +17,8 @@ func init() {
 			"returns an object only (a) from a call that is handed the same filter, or (b) on a path that crossed the edge on which 'filter == AnyObject or object.Type() == filter' is known for the returned object " +
 			"(both the disjunctive and the De Morgan form are recognised, also nested in larger conditions); a read by type that skips this on one path — the cache hit, the loose path, an iterator — hands out an object of another type; " +
 			"(pack-hit-verified) findObjectInPackfile names a pack only behind the success edge of that pack index's FindOffset for the requested hash, so the most-recently-used hint can be stale but cannot misroute; " +
-			"(reader-bounded-by-size) FSObject.Reader hands out either the cached object's reader or a reader wrapped in NewBoundedReadCloser. Not decided: contents and sizes of what is read, cache coherence, delta resolution.",
+			"(reader-bounded-by-size) FSObject.Reader hands out either the cached object's reader or a reader wrapped in NewBoundedReadCloser. (may-contain-confirmed) on the edge where an index's MayContain (a first-byte bucket test) answered true only the precise lookup may follow, never the next iteration or a return; " +
+			"(alternates-miss-is-not-found) findInAlternates returns the value its workers collected with a nil error only where the found flag is true (found and fixed: a miss in two or more alternates answered (zero, nil)). Not decided: contents and sizes of what is read, cache coherence, delta resolution.",
 		Assumptions: []string{},
 		Run:         runC11,
 	})
